@@ -208,8 +208,10 @@ impl Oracle for TransportOracle {
                     return None;
                 }
                 let key = (src, *ep);
-                let in_current = self.dirs.get(&key).map_or(false, |d| d.subs.iter().any(|s| *s.payload == **p));
-                let use_old = !in_current && self.old_dirs.get(&key).map_or(false, |d| d.subs.iter().any(|s| *s.payload == **p));
+                // (only when a previous incarnation exists: the scan is linear)
+                let has_old = self.old_dirs.contains_key(&key);
+                let in_current = has_old && self.dirs.get(&key).map_or(false, |d| d.subs.iter().any(|s| *s.payload == **p));
+                let use_old = has_old && !in_current && self.old_dirs.get(&key).map_or(false, |d| d.subs.iter().any(|s| *s.payload == **p));
                 if in_current && self.old_dirs.remove(&key).is_some() {
                     // the receiver now serves the new incarnation; nothing older may follow
                 }
